@@ -75,8 +75,9 @@ PROPS["C11"] = {"units": ["nav"], "kani": [], "replay": [], "title": "Code-map o
 PROPS["C20"]["units"] = ["nav"]
 
 PROPS["C04"]["units"] = ["print", "roundtrip"]
-PROPS["C04"]["level_text"] = "String level, unbounded: string_literal emits lit(s) for every string (proved of the real code, unit print); SmallString::parse_in decodes per str_run (proved of the real code, unit parse); lemma_escape_roundtrip (unit roundtrip, pure specification lemma over the two shared vocabularies) proves str_outcome(lit(s)) == Done(|lit(s)|, s) for every string, every option record and every assignment of byte lengths. Container level: the generic emitters are proved to write only the documented separators and whitespace."
-PROPS["C04"]["level_note"] = _PRINT_NOTE + " The printed text of whole values is specified (value_ptext, proved of the printer) and the parser is proved to compute doc(text); the lemma doc(value_ptext(v)) == v that would tie them for containers and numbers is NOT proved: the value-level round trip rests on the bounded stand-in."
+PROPS["C04"]["level_text"] = ("Compact printing, whole values, unbounded, in three machine-checked links over the SAME specification files: (1) unit print: `impl Display for Value` (and compact_print) writes ctext(v), and lemma_ctext_is_jtext: ctext(v) == jtext(view of v); (2) unit roundtrip (pure lemmas over the parser's and the printer's shared vocabularies): lemma_doc_roundtrip -- for every abstract value j whose numbers are JSON numbers, every assignment of byte lengths, every position, code map and option record, doc(items of jtext(j)) is Ok with value j (induction over arrays and objects: lemma_val_reads / lemma_items_reads / lemma_members_reads; numbers: lemma_number_reads; strings: lemma_str_reads -- decoding ANY input that starts with the printed literal gives the string back); (3) unit parse: Value::parse_str(s) is doc(utf8_items(s), ..) and returns a value whose view is doc's value. "
+    "For the other option records (pretty, inline, custom spacing): the printed text is specified and proved (value_ptext, C13) and string literals round-trip for every option record; that doc(value_ptext(v)) == v with whitespace and indentation is NOT proved (bounded stand-in).")
+PROPS["C04"]["level_note"] = _PRINT_NOTE + " Hypotheses of the round-trip theorem: the value's numbers are JSON numbers and ASCII (what json-number's NumberBuf holds; the parser's own numbers are, by its contract). The composition of the three links is by reading (they are stated over the same include files), not a single Verus theorem: the units have different stubs for the payload types."
 
 # bounded stand-ins (replay crate) run for every claimed property: they cover what is outside the
 # verifier's reach and supply failing inputs for VIOLATION lines
